@@ -180,12 +180,14 @@ fn valid_version(v: &debversion::Version) -> bool {
     up == v.upstream_version && rev == v.debian_revision
 }
 
-/// mirror of `RelSpec.validR`
+/// mirror of `RelSpec.validRS` (the strong variant: a present architecture list is non-empty)
 pub fn valid_r(r: &LRel) -> bool {
     is_ident(&r.name)
         && r.archqual.as_ref().map_or(true, |a| is_ident(a))
         && r.version.as_ref().map_or(true, |(_, v)| valid_version(v))
-        && r.architectures.as_ref().map_or(true, |l| l.iter().all(|a| is_ident(a.strip_prefix('!').unwrap_or(a))))
+        && r.architectures.as_ref().map_or(true, |l| {
+            !l.is_empty() && l.iter().all(|a| is_ident(a.strip_prefix('!').unwrap_or(a)))
+        })
         && r.profiles.iter().all(|g| {
             g.iter().all(|p| match p {
                     BuildProfile::Enabled(n) | BuildProfile::Disabled(n) => is_ident(n),
@@ -365,6 +367,46 @@ pub fn handle(op: &str, a: &[&str]) -> Option<Resp> {
                 fail,
             ))
         }
+        ("rel.replraw", [field, j, raw]) => {
+            // Entry::replace with an operand parsed from a raw text (its RELATION node may carry
+            // whitespace, e.g. "n " or "n:any\n"); oracle: the field then reads as before with that
+            // one alternative replaced by what the operand read as
+            let f = ds(field)?;
+            let raw = ds(raw)?;
+            let j: usize = j.parse().ok()?;
+            let views = |root: &ll::Relations| -> Vec<Vec<String>> {
+                root.entries().map(|e| e.relations().map(|r| crate::rel::view_rel(&r)).collect()).collect()
+            };
+            let out = guarded(|| {
+                let root = ll::Relations::from_str(&f).ok()?;
+                let rel = ll::Relation::from_str(&raw).ok()?;
+                let mut want = views(&root);
+                if want.is_empty() || j >= want[0].len() {
+                    return None;
+                }
+                want[0][j] = crate::rel::view_rel(&rel);
+                let mut e = root.get_entry(0)?;
+                e.replace(j, rel);
+                let text = root.to_string();
+                let got = views(&root);
+                let reread = ll::Relations::from_str(&text).ok().map(|r| views(&r));
+                Some((format!("ok {} {}", es(&text), root.verif_dump()), want, got, reread))
+            });
+            Some(match out {
+                None => Resp::with("PANIC".to_string(), Some("Entry::replace panics".to_string())),
+                Some(None) => Resp::ok("none".to_string()),
+                Some(Some((obs, want, got, reread))) => {
+                    let fail = if got != want {
+                        Some(format!("after Entry::replace the field reads {:?}, expected {:?}", got, want))
+                    } else if reread.as_ref() != Some(&want) {
+                        Some(format!("the printed field re-reads as {:?}, expected {:?}", reread, want))
+                    } else {
+                        None
+                    };
+                    Resp::with(obs, fail)
+                }
+            })
+        }
         ("rel.mut", [name, ver, ops @ ..]) => {
             let nm = ds(name)?;
             let v = dec_ver(ver)?;
@@ -381,6 +423,11 @@ pub fn handle(op: &str, a: &[&str]) -> Option<Resp> {
                         "ver" => {
                             let v = dec_ver(x)?;
                             steps.push(Box::new(move |r| r.set_version(v.clone())));
+                        }
+                        "drop" => {
+                            steps.push(Box::new(move |r| {
+                                r.drop_constraint();
+                            }));
                         }
                         "arch" => {
                             let l = dlist(x)?;
@@ -424,6 +471,20 @@ pub fn handle(op: &str, a: &[&str]) -> Option<Resp> {
 
 // ------------------------------------------------------------------ generators
 
+/// C11 supplement: `Entry::replace` with operands parsed from texts with surrounding whitespace,
+/// on old relations with and without whitespace inside their node
+pub fn generate_c11_extra(_tier: &str, _seed: u64, out: &mut Out) {
+    let fields = ["a", "a | b", "a , c", "a:any , c", "a | b:any ", "a (>= 1) | b, c", "a\n | b\n, c", "a ", "a | b | c "];
+    let raws = ["n", "n ", " n", " n ", "n\n", "n:any", "n:any ", "n (>= 1)", "n (>= 1) ", "n [amd64] ", "n <x> ", "n:any \n "];
+    for f in fields {
+        for r in raws {
+            for j in 0..3 {
+                out.req("rel.replraw", &[es(f), j.to_string(), es(r)]);
+            }
+        }
+    }
+}
+
 const NAMES: [&str; 4] = ["a", "libc6", "g++", "x.y~1"];
 const ARCHS: [&str; 3] = ["amd64", "i386", "linux-any"];
 const PROFS: [&str; 3] = ["nocheck", "cross", "pkg.x"];
@@ -457,8 +518,8 @@ fn group_variants(n: usize, rng: &mut Rng) -> Vec<BuildProfile> {
         .collect()
 }
 
-/// `clean`: outside the trigger regions of the open findings (architectures present, at most one
-/// profile group)
+/// `clean`: architectures present and at most one profile group (the constructs of the fixed
+/// findings F-C14-1 / F-C14-2 are the other 25 %)
 pub fn random_rel(rng: &mut Rng, clean: bool) -> LRel {
     LRel {
         name: rng.pick(&NAMES).to_string(),
@@ -558,7 +619,7 @@ pub fn generate_c14(tier: &str, seed: u64, out: &mut Out) {
     }
     out.req("rel.lrels", &["();(x61:none:none:L:)".to_string()]);
     // 4. mutator histories on a root handle: every sequence of <= 3 (thorough: 4) operations
-    let mops = ["aq=x616e79", "ver=ge.x31", "ver=gt.x323a33", "ver=none", "arch=x616d643634,x2169333836", "arch=", "prof=GEx61,Dx62", "prof=GDx63"];
+    let mops = ["aq=x616e79", "ver=ge.x31", "ver=gt.x323a33", "ver=none", "drop=1", "arch=x616d643634,x2169333836", "arch=", "prof=GEx61,Dx62", "prof=GDx63"];
     let maxlen = if thorough { 4 } else { 3 };
     for start in ["none", "le.x302e31"] {
         for seq in lists_upto(&mops, maxlen) {
